@@ -29,16 +29,23 @@ import (
 )
 
 var (
-	atOnce            sync.Once
-	tableMetaCacheMap = map[types.DBType]TableMetaCache{}
+	atOnce             sync.Once
+	tableMetaCacheLock sync.RWMutex
+	tableMetaCacheMap  = map[types.DBType]TableMetaCache{}
 )
 
 // RegisterTableCache register the table meta cache for at and xa
 func RegisterTableCache(dbType types.DBType, tableMetaCache TableMetaCache) {
+	tableMetaCacheLock.Lock()
+	defer tableMetaCacheLock.Unlock()
+
 	tableMetaCacheMap[dbType] = tableMetaCache
 }
 
 func GetTableCache(dbType types.DBType) TableMetaCache {
+	tableMetaCacheLock.RLock()
+	defer tableMetaCacheLock.RUnlock()
+
 	return tableMetaCacheMap[dbType]
 }
 
@@ -113,7 +120,7 @@ type TableMetaCache interface {
 
 // buildResource
 func buildResource(ctx context.Context, dbType types.DBType, db *sql.DB) (*entry, error) {
-	cache := tableMetaCacheMap[dbType]
+	cache := GetTableCache(dbType)
 	if err := cache.Init(ctx, db); err != nil {
 		return nil, err
 	}
